@@ -35,4 +35,7 @@ c90542d C01
 $(git -C /repo log --format='%h %s' | grep 'sequence whose element' | cut -d' ' -f1) C03
 $(git -C /repo log --format='%h %s' | grep 'merge_includes did not descend' | cut -d' ' -f1) C16
 $(git -C /repo log --format='%h %s' | grep 'between the last item of an IF_DATA' | cut -d' ' -f1) C16
+70e37a9 C03
+8fb1d91 C03
+20d8817 C01
 LIST
